@@ -422,6 +422,36 @@ func (c14) Eval(c *Case) (*Violation, bool) {
 			}
 		}
 		variants = append(variants, []string{"balance", "--color=false", "--cpuprofile", "/w/p.prof", main}, []string{"balance", "--color=false", "--cpuprofile", "/nodir/p.prof", main})
+		// the largest integers a flag can carry (sums of two of them overflow)
+		const maxInt = "9223372036854775807"
+		variants = append(variants,
+			[]string{"balance", "--color=false", "-m", maxInt + ":1,.", main},
+			[]string{"balance", "--color=false", "-m", "1:" + maxInt + ",.", main},
+			[]string{"balance", "--color=false", "-m", maxInt + ":" + maxInt, main},
+			[]string{"balance", "--color=false", "-m", maxInt, main},
+			[]string{"portfolio", "weights", "-v", comOr(c.J, "CHF"), "-m", maxInt + ":1,.", main},
+			[]string{"portfolio", "weights", "-v", comOr(c.J, "CHF"), "-m", "1:" + maxInt + ",.", main},
+			[]string{"balance", "--color=false", "--last", "2147483647", "--months", main},
+			[]string{"portfolio", "returns", "-v", comOr(c.J, "CHF"), "--last", "2147483647", "--months", main},
+		)
+		// universe files of unexpected shapes: scalars that YAML does not read as strings,
+		// a list or a scalar where a class is expected, nested classes, nothing, garbage
+		files = copyFiles(files)
+		for i, y := range []string{
+			"Stocks:\n  - 7203\n  - ON\n  - ~\n  - 1.5\n",
+			"- AAPL\n- USD\n",
+			"Stocks: AAPL\n",
+			"Stocks:\n  Tech:\n    - AAPL\n",
+			"",
+			"\t\tgarbage: [",
+			"Stocks:\n  - [1, 2]\n  - {a: b}\n",
+			"7203:\n  - AAPL\ntrue:\n  - USD\n",
+			"Stocks:\n",
+		} {
+			name := fmt.Sprintf("/w/u%d.yaml", i)
+			files[name] = y
+			variants = append(variants, []string{"portfolio", "weights", "-v", comOr(c.J, "CHF"), "--universe", name, main})
+		}
 		for _, av := range variants {
 			o := Run(c.specFor(s, files, av))
 			if v := cleanEnd(o, av[0], av[1:], false, "argv "+strings.Join(av, " ")); v != nil {
